@@ -74,6 +74,17 @@ def typed_driver(c, cases):
             if mism == 1:
                 c.proof["errors"].append("Spec.toX differs from the parse of the rendered text for " + cs["dir"] + ": " + str((set(want) ^ set(have)))[:300])
     c.cov["tree_rendering_check"] = {"content_models_compared": compared, "schema_sets_with_a_difference": mism}
+    # the hypotheses of the file-level refinement theorem (Props/C02Read.c02_file_read), evaluated on the tree the real
+    # parser produced, and the closed form it states, executed
+    from .common import run_lines
+    single = [cs for cs in cases if cs.get("ref") is not None and os.path.exists(cs.get("dump", "")) and len(os.listdir(cs["in"])) == 1]
+    rc, out, err = run_lines([ZVDRV, "plainfile"], [cs["dump"] + "\t" + cs["start"] for cs in single])
+    import collections
+    tally = collections.Counter(out)
+    c.cov["file_level_refinement_theorem"] = {"single_file_inputs": len(single), "hypothesis_holds_on_the_real_parse": sum(v for k, v in tally.items() if k.startswith("plain=1")),
+                                               "closed_form_equals_model_result": tally.get("plain=1 closed=ok files=1", 0), "closed_form_differs": sum(v for k, v in tally.items() if "closed=differs" in k)}
+    if any("closed=differs" in k for k in tally) or len(out) != len(single):
+        c.proof["errors"].append("zvdrv plainfile: the closed form of c02_file_read differs from the reader model's result (or the driver failed): " + str(dict(tally))[:300] + err[-200:])
     from . import gencrate
     gencrate.cleanup()
     return fails
@@ -82,7 +93,8 @@ def typed_driver(c, cases):
 def run(tier, seed):
     return st.run_structural(
         "C02", tier, seed, "ZeepVerif.Props.C02", "ZeepVerif/Audit/C02.lean",
-        [("gen", 250, 6000), ("gencollide", 60, 1500), ("gentopo", 60, 1500)], oracle, projection, CHECKER, extra=typed_driver,
+        [("gen", 250, 6000), ("gencollide", 60, 1500), ("gentopo", 60, 1500), ("genplain", 60, 1500)], oracle, projection, CHECKER, extra=typed_driver,
+        extra_props=[("ZeepVerif.Props.C02Read", "ZeepVerif/Audit/C02Read.lean")],
         note_assumptions=[
             "Inflector 0.11.4 to_pascal_case/to_snake_case transcribed in Lean for ASCII names (validated by the byte comparison on every run)",
             "the reference mapping Spec.Ref (DESIGN.md 2.3) is the statement's 'documented Rust counterpart'",
